@@ -262,6 +262,43 @@ def build_power(rng, name, n_load, n_sgen, n_gen):
     return net
 
 
+def build_heat(rng, name):
+    """district-heating member (water, hydraulics + heat transfer) with its own sink set by a net-owned controller"""
+    import pandapipes
+    net = pandapipes.create_empty_network(name, fluid="water")
+    n = rng.randint(3, 5)
+    js = [pandapipes.create_junction(net, 6, 340.) for _ in range(n)]
+    pandapipes.create_ext_grid(net, js[0], p_bar=6, t_k=350. + rng.randint(0, 20), type="pt")
+    for a, b in zip(js, js[1:]):
+        pandapipes.create_pipe_from_parameters(net, a, b, dy(rng, 0.25, 1.5, 4), 150., k_mm=0.1, sections=rng.randint(1, 3),
+                                               u_w_per_m2k=rng.choice([1.0, 5.0, 10.0]), text_k=283.15)
+    for j in js[1:]:
+        pandapipes.create_sink(net, j, dy(rng, 0.5, 2, 16))
+    pandapipes.set_user_pf_options(net, mode="sequential", use_numba=False)
+    return net
+
+
+def set_value_class():
+    from pandapower.control.basic_controller import Controller
+
+    class SetValue(Controller):
+        """a plain user controller owned by one member net: writes one cell once"""
+        def __init__(self, net, table, column, idx, value, **kw):
+            super().__init__(net, **kw)
+            self.table, self.column, self.idx, self.value, self.applied = table, column, idx, value, False
+
+        def initialize_control(self, net):
+            self.applied = False
+
+        def control_step(self, net):
+            net[self.table].at[self.idx, self.column] = self.value
+            self.applied = True
+
+        def is_converged(self, net):
+            return self.applied
+    return SetValue
+
+
 def pick(rng, pool, vector):
     """element index: python int, numpy int, or a list / ndarray of distinct indices"""
     import numpy as np
@@ -287,13 +324,17 @@ def scenario(ctx, kind):
     nets["gas"] = build_gas(rng, f1, "g_" + f1, 7, 7)
     if kind in ("gas_gas", "all"):
         nets["gas2"] = build_gas(rng, f2, "g_" + f2, 4, 6)
+    heat_set = None
+    if kind == "all" or rng.random() < 0.3:
+        nets["heat"] = build_heat(rng, "dh")
     for n_, net_ in nets.items():
         if n_ == "power":
             __import__("pandapower").set_user_pf_options(net_, numba=False)
         else:
             __import__("pandapipes").set_user_pf_options(net_, use_numba=False)
     add_nets_to_multinet(mn, **nets)
-    pools = {(n, t): list(nets[n][t].index) for n in nets for t in (("load", "sgen", "gen") if n == "power" else ("sink", "source"))}
+    pools = {(n, t): list(nets[n][t].index) for n in nets if n != "heat"
+             for t in (("load", "sgen", "gen") if n == "power" else ("sink", "source"))}
     levels = rng.choice([[0, 0, 0, 0], [0, 1, 2, 3], [3, 1, 0, 1], [2, 2, 5, 5]])
     orders = rng.sample(range(6), 4)
     ini = rng.random() < 0.7
@@ -350,7 +391,12 @@ def scenario(ctx, kind):
             cps.append({"kind": "g2g", "coq": "g2g_written", "eta": eta, "vector": vec, "hhv": ["gas", "gas2"],
                         "read": ("gas", "sink", l1), "write": ("gas2", "source", l2)})
             k += 1
-    return mn, nets, cps, {"kind": kind, "fluids": [f1, f2], "levels": levels, "orders": orders, "initial_run": ini}
+    if "heat" in nets:
+        heat_set = (int(nets["heat"].sink.index[-1]), dy(rng, 0.5, 3, 16))
+        set_value_class()(nets["heat"], "sink", "mdot_kg_per_s", heat_set[0], heat_set[1],
+                          order=rng.choice(orders), level=rng.choice(levels), initial_run=ini)
+    return mn, nets, cps, {"kind": kind, "fluids": [f1, f2], "levels": levels, "orders": orders, "initial_run": ini,
+                           "heat_member": heat_set}
 
 
 VALUE_COL = {"load": "p_mw", "sgen": "p_mw", "gen": "p_mw", "sink": "mdot_kg_per_s", "source": "mdot_kg_per_s"}
@@ -453,6 +499,15 @@ def monitor_multinets(ctx, n):
                           % {n_: bool(nets[n_]["converged"]) for n_ in nets}, desc)
         items += written_items(nets, cps, {"scenario": desc["kind"], "fluids": desc["fluids"], "levels": desc["levels"],
                                            "orders": desc["orders"]})
+        if desc.get("heat_member"):
+            ctx.count("multinet_with_heat_member")
+            hi, hv = desc["heat_member"]
+            if float(nets["heat"].sink.at[hi, "mdot_kg_per_s"]) != hv or \
+                    float(nets["heat"].res_sink.at[hi, "mdot_kg_per_s"]) != hv * float(nets["heat"].sink.at[hi, "scaling"]):
+                ctx.violation({"fn": "run_control", "clause": "net_owned_controller_in_heat_member"},
+                              "heat member: sink %s set to %r by its own controller, table has %r, result %r"
+                              % (hi, hv, nets["heat"].sink.at[hi, "mdot_kg_per_s"],
+                                 nets["heat"].res_sink.at[hi, "mdot_kg_per_s"]), desc)
         for n_, net in nets.items():
             try:
                 alone = standalone(net)
@@ -534,6 +589,11 @@ def monitor_divergence(ctx, n):
         for c in mn.controller.object.values:
             c.initial_run = False
         mn.controller["initial_run"] = False
+        for n_ in nets:
+            if "controller" in nets[n_] and len(nets[n_].controller):
+                for c in nets[n_].controller.object.values:
+                    c.initial_run = False
+                nets[n_].controller["initial_run"] = False
         victim = rng.choice(sorted(nets))
         if isinstance(nets[victim], pandapipes.pandapipesNet):
             pandapipes.create_sink(nets[victim], nets[victim].junction.index[-1], 1e7)
@@ -579,6 +639,54 @@ def monitor_divergence(ctx, n):
         pass
 
 
+def monitor_init_any(ctx):
+    """net_initialization_multinet combines the initial-run flags with max: a multinet without in-service controller
+    whose power member ends its initial run not converged (tolerant run function) is reported converged"""
+    import pandapipes
+    import pandapower
+    from pandapower.powerflow import LoadflowNotConverged
+    from pandapipes.pf.pipeflow_setup import PipeflowNotConverged
+    from pandapipes.multinet.create_multinet import create_empty_multinet, add_nets_to_multinet
+    from pandapipes.multinet.control.controller.multinet_control import G2PControlMultiEnergy
+    from pandapipes.multinet.control.run_control_multinet import run_control
+    rng = ctx.rng
+
+    def tol(fn, exc):
+        def run(net, **kw):
+            try:
+                fn(net, **kw)
+            except exc:
+                net["converged"] = False
+        return run
+    for variant in ("no_controller", "controller_out_of_service"):
+        for first in ("power", "gas"):
+            nets = {"power": build_power(rng, "el", 3, 2, 0), "gas": build_gas(rng, "lgas", "g", 2, 2)}
+            pandapower.set_user_pf_options(nets["power"], numba=False)
+            pandapipes.set_user_pf_options(nets["gas"], use_numba=False)
+            pandapower.create_load(nets["power"], nets["power"].bus.index[-1], p_mw=1e6, q_mvar=1e6)
+            mn = create_empty_multinet("init")
+            order = [first, "gas" if first == "power" else "power"]
+            add_nets_to_multinet(mn, **{k: nets[k] for k in order})
+            if variant == "controller_out_of_service":
+                G2PControlMultiEnergy(mn, 0, 0, 0.5, in_service=False)
+            cv = {"nets": {"power": {"run": tol(pandapower.runpp, LoadflowNotConverged), "initial_run": True},
+                           "gas": {"run": tol(pandapipes.pipeflow, PipeflowNotConverged), "initial_run": True}}}
+            try:
+                run_control(mn, ctrl_variables=cv)
+                out = "returned"
+            except Exception as e:
+                out = type(e).__name__
+            flags = {k: bool(nets[k].get("converged", False)) for k in nets}
+            d = {"variant": variant, "member_order": order, "outcome": out, "member_converged": flags}
+            ctx.case(d, True)
+            ctx.count("init_any_" + out)
+            if out == "returned" and not all(flags.values()):
+                ctx.violation({"fn": "net_initialization_multinet", "clause": "init_or_is_and",
+                               "needs": "no in-service controller, run function that tolerates divergence"},
+                              "run_control returned normally (ctrl_variables['converged'] = max of the initial-run flags) "
+                              "although the initial run of member power did not converge: %s" % flags, d)
+
+
 def monitor_timeseries(ctx, n):
     """coupled_*_const_control through run_timeseries: last step's cells and stand-alone equality"""
     import numpy as np
@@ -605,8 +713,12 @@ def monitor_timeseries(ctx, n):
         nets["power"].load.at[0, "scaling"] = 0.5
         nets["gas"].sink.at[1, "scaling"] = 1.5
         coupled_p2g_const_control(mn, 0, 0, p2g_efficiency=eta1, profile_name="p2g", data_source=ds)
+        led = bool(it % 2)
+        if led:
+            prof["g2p"] = [dy(rng, 0.5, 4, 16) for _ in range(steps)]      # electric output profile [MW]
+            ds = DFData(prof)
         coupled_g2p_const_control(mn, 1, 1, g2p_efficiency=eta2, element_type_power="sgen", profile_name="g2p",
-                                  data_source=ds)
+                                  data_source=ds, power_led=led)
         try:
             run_timeseries(mn, time_steps=range(steps), output_writers=None, verbose=False)
         except TypeError:
@@ -615,9 +727,11 @@ def monitor_timeseries(ctx, n):
             ctx.note("run_timeseries raised %s (skipped)" % type(e).__name__)
             continue
         d = {"scenario": "timeseries", "fluids": [fl], "levels": "default", "orders": "default"}
+        g2p_cell = nets["power"].sgen.at[1, "p_mw"] if led else nets["gas"].sink.at[1, "mdot_kg_per_s"]
         ok_prof = float(nets["power"].load.at[0, "p_mw"]) == float(prof["p2g"].iloc[-1]) and \
-            float(nets["gas"].sink.at[1, "mdot_kg_per_s"]) == float(prof["g2p"].iloc[-1])
-        ctx.case(dict(d, profile=prof.to_dict("list"), eta=[eta1, eta2]), True)
+            float(g2p_cell) == float(prof["g2p"].iloc[-1])
+        ctx.case(dict(d, profile=prof.to_dict("list"), eta=[eta1, eta2], power_led=led), True)
+        ctx.count("timeseries_power_led" if led else "timeseries_gas_led")
         if not ok_prof:
             ctx.violation({"fn": "coupled_const_control", "clause": "profile_value_applied"},
                           "after the last time step load.p_mw = %r / sink.mdot = %r, profile says %r / %r"
@@ -625,8 +739,10 @@ def monitor_timeseries(ctx, n):
                              prof["p2g"].iloc[-1], prof["g2p"].iloc[-1]), d)
         cps = [{"kind": "p2g", "coq": "p2g_written", "eta": eta1, "vector": False, "hhv": ["gas"],
                 "read": ("power", "load", [0]), "write": ("gas", "source", [0])},
-               {"kind": "g2p", "coq": "g2p_written", "eta": eta2, "vector": False, "hhv": ["gas"],
-                "read": ("gas", "sink", [1]), "write": ("power", "sgen", [1])}]
+               ({"kind": "g2p_power_led", "coq": "g2p_power_led_written", "eta": eta2, "vector": False, "hhv": ["gas"],
+                 "read": ("power", "sgen", [1]), "write": ("gas", "sink", [1])} if led else
+                {"kind": "g2p", "coq": "g2p_written", "eta": eta2, "vector": False, "hhv": ["gas"],
+                 "read": ("gas", "sink", [1]), "write": ("power", "sgen", [1])})]
         items += written_items(nets, cps, d)
         for n_, net in nets.items():
             try:
@@ -654,6 +770,13 @@ def run(ctx):
     except Exception as e:
         ctx.broken("translator", "tools/translate/multinet.py", repr(e))
     proved = ctx.prove("C20")
+    try:                                   # after_run_is_standalone: instance of the C12 history model
+        from props import c12 as _c12
+        for name, fn in getattr(_c12, "GEN", []):
+            ctx.gen(name, fn())
+    except Exception as e:
+        ctx.broken("translator", "C12 generators (needed by C20/Standalone.v)", repr(e))
+    ctx.prove("C20", props="Standalone")
     if not proved:
         ctx.make(["C20/Model.vo", "Gen/KConv.vo"])
     ctx.assumptions.append("pandapower control_implementation calls the evaluate function once per control iteration of a "
@@ -666,12 +789,17 @@ def run(ctx):
         import traceback
         ctx.broken("harness", "bookkeeping correspondence", traceback.format_exc()[-1200:])
     for name, fn, n in (("run_control", monitor_multinets, 12 if ctx.quick else 300),
-                        ("timeseries", monitor_timeseries, 2 if ctx.quick else 30)):
+                        ("timeseries", monitor_timeseries, 4 if ctx.quick else 30)):
         try:
             check_written(ctx, fn(ctx, n), name)
         except Exception:
             import traceback
             ctx.broken("harness", "monitor " + name, traceback.format_exc()[-1200:])
+    try:
+        monitor_init_any(ctx)
+    except Exception:
+        import traceback
+        ctx.broken("harness", "monitor init_any", traceback.format_exc()[-1200:])
     try:
         monitor_divergence(ctx, 6 if ctx.quick else 60)
     except Exception:
